@@ -817,8 +817,8 @@ def partition_by_sum(array, parts):
     # we would never have ideal sums.
     indices = np.searchsorted(cumulative_sum, ideal_cumsum, side="right")
     # Check for repeated split points, which indicates that there is no way to
-    # split the array.
-    if np.unique(indices).size != indices.size:
+    # split the array. A split point at 0 would leave the first part empty.
+    if np.unique(indices).size != indices.size or (indices.size > 0 and indices[0] == 0):
         raise ValueError(
             "Could not find partition points to split the array into {} parts "
             "of equal sum.".format(parts)
